@@ -489,6 +489,9 @@ func (v *Validator) validateParallelismSpecWithMatrix(
 			allErrs = append(allErrs, field.Invalid(fldPath, key, detail))
 			continue
 		}
+		if len(vals) == 0 {
+			allErrs = append(allErrs, field.Required(fldPath.Key(key), "at least one value is required"))
+		}
 		for _, val := range vals {
 			if len(val) == 0 {
 				allErrs = append(allErrs, field.Required(fldPath.Key(key), "value cannot be empty"))
